@@ -399,6 +399,48 @@ def random_structs(seed, count):
     return out
 
 
+FN_TAG, FN_XOR = 0x7F0000000000, 0xA5000000
+
+
+def check_bm_vsh(ctx, k):
+    """guest layout of VSH on BM (LP32): a@0 (4), h@4 (4, data pointer), f@8 (4, function representation), p@12 (4)"""
+    size = 1 << 32
+    b0 = ctx.sandbox_base(32, "b0", aligned=False)
+    p = ctx.sym("p", 64)
+    ctx.assume(z3.UGE(p, b0), z3.ULE(p - b0, BV(size - 16, 64)))
+    mem0 = ctx.eng.initial_memory()
+    cell = lambda mem, off: z3.Concat(*[z3.Select(mem, p + BV(off + i, 64)) for i in reversed(range(4))])
+    data = lambda r: z3.If(r == 0, BV(0, 64), b0 + zext(r, 64))
+    fn = lambda r: z3.If(r == 0, BV(0, 64), BV(FN_TAG, 64) | zext(r ^ BV(FN_XOR, 32), 64))
+    if k == "k_bm_load_vsh":
+        paths = ctx.run(k, [b0, p])
+        for q in paths:
+            if q.status == "ret":
+                l1 = [e for e in q.user["log"] if e[0] == 1][0]
+                l2 = [e for e in q.user["log"] if e[0] == 2][0]
+                ctx.require(q, z3.And(l1[1] == sext(cell(mem0, 0), 64), l1[2] == data(cell(mem0, 4)), l1[3] == fn(cell(mem0, 8)), l2[1] == data(cell(mem0, 12))),
+                            "every field is copied out with its own translation: data pointers (incl. a pointer to a function pointer) relative to the region, "
+                            "the function pointer through the function representation")
+        ctx.only(paths, "ret")
+        ctx.expect(paths, ret=1)
+    else:
+        a = ctx.sym("a", 32)
+        h = ctx.sym("h", 64)
+        f = ctx.sym("f", 64)
+        qq = ctx.sym("q", 64)
+        ctx.assume(z3.Or(h == 0, ctx.in_region(h, b0, size)), z3.Or(qq == 0, ctx.in_region(qq, b0, size)))
+        fr = ctx.sym("frep", 32)
+        ctx.assume(f == fn(fr))
+        paths = ctx.run(k, [b0, p, a, h, f, qq])
+        rep = lambda v: z3.If(v == 0, BV(0, 32), z3.Extract(31, 0, v - b0))
+        for q in paths:
+            if q.status == "ret":
+                ctx.require(q, z3.And(cell(q.mem, 0) == a, cell(q.mem, 4) == rep(h), cell(q.mem, 8) == fr, cell(q.mem, 12) == rep(qq)),
+                            "every field is written with its own translation")
+        ctx.only(paths, "ret")
+        ctx.expect(paths, ret=1)
+
+
 def jobs(tier, seed):
     groups = [("B32", base_structs())]
     t64 = make_types(8)
@@ -422,4 +464,5 @@ def jobs(tier, seed):
                     dict(name="%s %s by-value result" % (sbx, st.name), fn=check_load, kw=dict(st=st, form="byval_ret")),
                     dict(name="%s %s round trip" % (sbx, st.name), fn=check_roundtrip, kw=dict(st=st))]
             out.append(Job("C08_%s_%s" % (sbx, st.name), src, chks, compare_logs=True))
+    out.append(Job("C08_BM_vsh", '#include "C08_bm.inc"\n', [dict(name="BM struct with Fn*, Fn and int* fields: " + k, fn=check_bm_vsh, kw=dict(k=k)) for k in ("k_bm_load_vsh", "k_bm_store_vsh")], native=False))
     return out
